@@ -381,6 +381,9 @@ class _NoJson(object):
 
 JATTRS = [{}, {"units": "m", "n": 3, "f": 2.5, "lst": [1, "a", [2.5]], "nested": {"k": [1, 2]}, "none": None, "flag": True},
           {"ok": "yes", "bad": "NOJSON", "arr": "NDARRAY"},
+          # ... the entries that JSON cannot represent FIRST and IN THE MIDDLE: every representable entry comes back, wherever it stands
+          {"bad": "NOJSON", "ok": "yes", "arr": "NDARRAY", "n": 3},
+          {"a": 1, "arr": "NDARRAY", "b": [1, 2], "bad": "NOJSON", "c": "z"},
           # metadata under the names of properties / methods of the array and of one of its dimensions
           {"size": "large", "shape": "round", "ndim": "two", "dims": "space", "mean": 2.5, "max": 5.0, "x": "longitude", "values": "v", "T": "t", "labels": "l"}]
 
